@@ -186,6 +186,7 @@ structure StrEnc where
   adjuster : Option LinAdj
   termChar : Option Bytes
   leadingSize : Option Int
+  byteOrder : Option String := none     -- recorded only; decoding never consults it (see C09)
 
 def optTruthy (o : Option Int) : Bool := match o with | some v => v != 0 | none => false
 def listTruthy {α} (o : Option (List α)) : Bool := match o with | some l => !l.isEmpty | none => false
